@@ -5,7 +5,7 @@ import binfmt
 from wire import Obj, Tagged
 
 PROP = "C07"
-MODULES = ["JV.Props.C07"]
+MODULES = ["JV.Props.C07", "JV.Props.C07X"]
 HARNESS = "bin"
 
 INTS = [0, 1, 23, 24, 255, 256, 65535, 65536, 2 ** 32 - 1, 2 ** 32, 2 ** 63 - 1, 2 ** 63, 2 ** 64 - 1, -1, -24, -25, -256, -257, -65536, -65537,
